@@ -6,6 +6,8 @@ package c03lib
 import (
 	"encoding/json"
 	"errors"
+	"os"
+	"path/filepath"
 	"flag"
 	"fmt"
 	"io"
@@ -88,8 +90,9 @@ type Fired struct {
 }
 
 type LbEnt struct {
-	Key []Ident `json:"key"`
-	C   uint64  `json:"c"`
+	Key   []Ident `json:"key"`
+	C     uint64  `json:"c"`
+	Scope string  `json:"scope,omitempty"` // prefix of the real key in front of the "[…]" object list (a cursor scope such as "pickone:")
 }
 
 // OutJ is the output of one op: match -> Ok []string (hex) | Err; pop -> Ok Ident | Err.
@@ -125,7 +128,7 @@ func CanonLb(l []LbEnt) string {
 		for j, id := range e.Key {
 			k[j] = fmt.Sprintf("%s/%d", rig.UnHex(id.N), id.Gen)
 		}
-		s[i] = fmt.Sprintf("[%s]=%d", strings.Join(k, " "), e.C)
+		s[i] = fmt.Sprintf("%s[%s]=%d", e.Scope, strings.Join(k, " "), e.C)
 	}
 	sort.Strings(s)
 	return strings.Join(s, "; ")
@@ -155,6 +158,28 @@ func CanonOut(o *OutJ) string {
 }
 
 // ---------------------------------------------------------------------------------------------------------
+
+// KnownClasses reads the failure classes registered as `finding:` lines for a property in known_findings.txt: a harness
+// records such a failure once and goes on exploring instead of stopping at it.
+func KnownClasses(property string) map[string]bool {
+	res := map[string]bool{}
+	b, err := os.ReadFile(filepath.Join(os.Getenv("VERIF_DIR"), "known_findings.txt"))
+	if err != nil {
+		return res
+	}
+	for _, line := range strings.Split(string(b), "\n") {
+		line = strings.TrimSpace(line)
+		if !strings.HasPrefix(line, "finding:") || !strings.Contains(line, "property="+property+" ") {
+			continue
+		}
+		for _, f := range strings.Fields(line) {
+			if strings.HasPrefix(f, "matcher=") {
+				res[strings.TrimPrefix(f, "matcher=")] = true
+			}
+		}
+	}
+	return res
+}
 
 func SilenceKlog() {
 	fs := flag.NewFlagSet("klog", flag.ContinueOnError)
@@ -245,6 +270,7 @@ func (w *World) recLocked(e *clusters.EndpointInfo) *epRec {
 func (w *World) healthCheck(e *clusters.EndpointInfo) bool {
 	w.mu.Lock()
 	r := w.recLocked(e)
+	nth := r.probes + 1
 	h := w.up[e.Endpoint]
 	if !w.specIn[e.Endpoint] {
 		w.Viol = append(w.Viol, fmt.Sprintf("health probe sent to %s which is not in the current server list", e.Endpoint))
@@ -272,9 +298,11 @@ func (w *World) healthCheck(e *clusters.EndpointInfo) bool {
 			w.mu.Unlock()
 		}
 	} else if h {
-		e.UpdateStatus(true, "", "")
+		// reason and message of a status are free text (the injected function may report anything, e.g. a latency): they
+		// differ from probe to probe here, and nothing but logs and the unready reason of a 503 may depend on them
+		e.UpdateStatus(true, "", fmt.Sprintf("scripted ok, probe %d of this endpoint", nth))
 	} else {
-		e.UpdateStatus(false, "NotReady", "scripted")
+		e.UpdateStatus(false, "NotReady", fmt.Sprintf("scripted failure, probe %d of this endpoint", nth))
 	}
 	w.mu.Lock()
 	r.probes++
@@ -439,7 +467,11 @@ func (w *World) Snapshot() ([]EPState, []LbEnt, error) {
 	sort.Slice(eps, func(i, j int) bool { return eps[i].N < eps[j].N })
 	for k, v := range clusters.VerifLoadbalancer(w.CI) {
 		ent := LbEnt{C: v, Key: []Ident{}}
-		for _, addr := range strings.Fields(strings.Trim(k, "[]")) {
+		list := k
+		if i := strings.Index(k, "["); i > 0 {
+			ent.Scope, list = k[:i], k[i:]
+		}
+		for _, addr := range strings.Fields(strings.Trim(list, "[]")) {
 			w.mu.Lock()
 			r := w.byAddr[addr]
 			w.mu.Unlock()
@@ -453,6 +485,47 @@ func (w *World) Snapshot() ([]EPState, []LbEnt, error) {
 		lb = append(lb, ent)
 	}
 	return eps, lb, err
+}
+
+// KeyString renders the object list of a snapshot entry the way the real code prints it ("[0x… 0x…]").
+func (w *World) KeyString(ent LbEnt) string {
+	w.mu.Lock()
+	defer w.mu.Unlock()
+	parts := make([]string, len(ent.Key))
+	for i, id := range ent.Key {
+		for addr, r := range w.byAddr {
+			if rig.Hex(r.name) == id.N && r.gen == id.Gen {
+				parts[i] = addr
+			}
+		}
+	}
+	return "[" + strings.Join(parts, " ") + "]"
+}
+
+// PopError maps a Pop / PickOne error to the wire vocabulary.
+func (w *World) PopError(err error) *OutJ {
+	if errors.Is(err, clusters.ErrNoReadyEndpoints) {
+		return &OutJ{Err: "noready"}
+	}
+	return &OutJ{Err: "other:" + err.Error()}
+}
+
+// RawCursors is the load-balancer map as it is (key strings of the real code -> cursor), for "nothing moved" comparisons.
+func (w *World) RawCursors() map[string]uint64 {
+	if w.CI == nil {
+		return map[string]uint64{}
+	}
+	return clusters.VerifLoadbalancer(w.CI)
+}
+
+// ProbesOf is the number of probes an endpoint object has received so far.
+func (w *World) ProbesOf(e *clusters.EndpointInfo) int {
+	w.mu.Lock()
+	defer w.mu.Unlock()
+	if r := w.byPtr[e]; r != nil {
+		return r.probes
+	}
+	return 0
 }
 
 // KeyOf renders the load-balancer key the real code uses for an ordered list of endpoint objects.
@@ -596,6 +669,8 @@ func DescribeAnswer(u UpEnt) string {
 		return "no answer (hang until the client's timeout)"
 	case c == -2:
 		return "connection closed without answer"
+	case c == -4:
+		return "HTTP 200 headers, then the body never arrives (client timeout while reading the body)"
 	case c == -3:
 		return "connection refused"
 	case u.BodyOK != nil && !*u.BodyOK:
